@@ -348,8 +348,12 @@ def dump_system(system: Any, modidx: Dict[str, int]) -> Dict[str, Any]:
         if isinstance(o, model.Module) and site[0] == 0:
             sp = getattr(o, "source_path", None)
             site = [0, 0]
+        top = o
+        while top.parent is not None and not isinstance(top.parent, model.Module):
+            top = top.parent
         e: Dict[str, Any] = {"cls": type(o).__name__, "site": site, "name": o.fullName(), "bases": [], "mro": [],
-                             "kind": o.kind.name if o.kind is not None else None}
+                             "kind": o.kind.name if o.kind is not None else None,
+                             "top_site": site if top is o else site_of(top, modidx)}
         if isinstance(o, model.Class):
             e["bases"] = [b.fullName() if b is not None else "" for b in o.baseobjects]
             e["base_sites"] = [site_of(b, modidx) if b is not None else None for b in o.baseobjects]
@@ -516,14 +520,18 @@ def build_sources(paths: Sequence[Path] = (), texts: Sequence[Tuple[str, str]] =
     return {"system": system, "rec": rec, "msgs": msgs, "crashed": crashed}
 
 
-def derived_relations(system: Any) -> List[str]:
-    """C02, second sentence: derived relations are mutually consistent (evaluated on the real System)."""
+def derived_relations(system: Any, msgs: Sequence[Tuple[str, str]] = ()) -> List[str]:
+    """C02, second sentence: derived relations are mutually consistent (evaluated on the real System).
+    Classes whose hierarchy Python itself rejects (duplicate bases, no consistent MRO, cycles) and that pydoctor
+    reported in section 'mro' have no linearisation to speak of (C05 covers the report); they are skipped for the MRO clauses."""
     from pydoctor import model
     bad: List[str] = []
     classes = [o for o in system.allobjects.values() if isinstance(o, model.Class)]
-    reported = set()
+    mro_msgs = " ".join(m for sec, m in msgs if sec == "mro")
     for c in classes:
         mro = list(c.mro())
+        if c.fullName() in mro_msgs or any(b.fullName() in mro_msgs for b in c.allbases()):
+            continue
         if not mro or mro[0] is not c:
             bad.append(f"MroStartsWithSelf:{c.fullName()}")
         for b in c.baseobjects:
@@ -613,7 +621,7 @@ def members_of(p: Dict[str, Any], mi: int, pc: int) -> List[Tuple[str, int]]:
     return list(out.items())
 
 
-def expected_reexports(p: Dict[str, Any]) -> List[Dict[str, Any]]:
+def expected_reexports(p: Dict[str, Any], multi: bool = False) -> List[Dict[str, Any]]:
     """
     The re-exports the property C07 talks about: module R imports name `orig` from project module O (not listing it
     in its own __all__) where O defines it, and lists the bound name in R.__all__; exactly one such R per object.
@@ -651,4 +659,6 @@ def expected_reexports(p: Dict[str, Any]) -> List[Dict[str, Any]]:
     by_site: Dict[Tuple[int, int], List[Dict[str, Any]]] = {}
     for f in found:
         by_site.setdefault(tuple(f["site"]), []).append(f)
+    if multi:
+        return [v[0] for v in by_site.values() if len(v) > 1]
     return [v[0] for v in by_site.values() if len(v) == 1]
